@@ -78,8 +78,9 @@ def corpus_cases(pid, cfgs):
 def flat(v):
     return " ".join(str(x) for cm in v for x in cm)
 
-def run_cases(ck, cases, exes, model, family="ntt", timeout=1800):
+def run_cases(ck, cases, exes, model, family="ntt", timeout=None):
     """cases: list of (stream, cfg, line). exes: {(backend,cfg): exe}. Returns (fails, corr, nrun)."""
+    if timeout is None: timeout = 1800 if ck.tier == "quick" else 20000     # the thorough tier runs thousands of large-degree cases through the bit-serial model
     data = "\n".join(l for _, _, l in cases) + "\n"
     rc, mout, merr = vf.run_io([model, family], data, timeout=timeout)
     if rc != 0:
